@@ -1740,6 +1740,14 @@ class Canon:
         norm.FINAL_ATTRS.clear()
         norm.FINAL_ATTRS.update(self._final_attrs())
 
+    def _project_nested(self, stmts, module):
+        """_project_helper_objects in every block"""
+        stmts = self._project_helper_objects(stmts, module)
+        for s_ in stmts:
+            if not isinstance(s_, (ast.FunctionDef, ast.AsyncFunctionDef, ast.ClassDef)):
+                _recurse_blocks(s_, lambda b_: self._project_nested(b_, module))
+        return stmts
+
     def _project_helper_objects(self, stmts, module):
         """x = _Helper(a, b)  with _Helper a private dataclass the tables do not know (a record introduced by a refactoring):
         x.field is the constructor argument, x[k] / x.m(k) the one-line accessor with the fields written in.  All or nothing: if x is
@@ -1758,8 +1766,9 @@ class Canon:
             call = s_.value
             if any(isinstance(a, ast.Starred) for a in call.args) or any(k.arg is None for k in call.keywords):
                 continue
-            if c.is_dataclass and "__init__" not in c.methods:
-                params = [f.name for f in c.all_fields() if f.init and not f.classvar]
+            is_nt = any(u(b_).split(".")[-1] == "NamedTuple" for b_ in c.node.bases) and "__new__" not in c.methods and "__init__" not in c.methods
+            if (c.is_dataclass and "__init__" not in c.methods) or is_nt:
+                params = [f.name for f in (c.fields if is_nt else c.all_fields()) if (is_nt or f.init) and not f.classvar]
                 if len(call.args) > len(params):
                     continue
                 vals = dict(zip(params, call.args))
@@ -1829,6 +1838,8 @@ class Canon:
 
                 def visit_Subscript(self, node):
                     if isinstance(node.value, ast.Name) and node.value.id == x and isinstance(node.ctx, ast.Load):
+                        if is_nt and isinstance(node.slice, ast.Constant) and type(node.slice.value) is int and -len(params) <= node.slice.value < len(params):
+                            return copy.deepcopy(vals[params[node.slice.value]])
                         e = accessor_body("__getitem__", [self.visit(node.slice)])
                         if e is not None:
                             return e
@@ -2566,6 +2577,7 @@ class Canon:
             b = norm.normalise_loops(b)
             b2 = norm.unroll_literal_loops(norm.fuse_for_over_comp(b, pure_calls=_PURE_EXT))
             if ast.dump(ast.Module(body=b2, type_ignores=[])) != ast.dump(ast.Module(body=b, type_ignores=[])):
+                b2 = self._project_nested(b2, module)       # records a comprehension built for the loop (now bound per iteration)
                 b = _drop_dead_temps(norm.forward_subst(b2, pure_calls=_PURE_EXT))
         b = polarity(expr_norm(b))          # (expression idioms may have produced `not all(..)` tests)
         for s in b:
@@ -2607,7 +2619,8 @@ def _sig_of(f: ast.FunctionDef, skip_first: bool):
 class _PureExt:
     """membership oracle handed to norm.is_pure: constructor-like callees count as pure"""
     def __contains__(self, name):
-        return bool(name) and name[0].isupper()
+        # (private classes too: _IndexArg(..), _Row(..))
+        return bool(name) and name.lstrip("_")[:1].isupper()
 
 
 _PURE_EXT = _PureExt()
